@@ -760,6 +760,7 @@ pub fn generate_r(stream: &str, seed: u64, n: usize, emit: &mut dyn FnMut(String
 	}
 	let mut rng = rng_from(seed, stream);
 	let mut produced = 0;
+	let mut files = 0usize;
 	while produced < n {
 		let big = stream == "ocfr-big";
 		let mut sg = SchemaGen::new(&mut rng, 8, false);
@@ -771,6 +772,12 @@ pub fn generate_r(stream: &str, seed: u64, n: usize, emit: &mut dyn FnMut(String
 		let codec = match stream {
 			"ocfr-null" | "ocfr-damage" => "null",
 			"ocfr-big" => CODECS[produced % CODECS.len()],
+			// a damaged file gives a dozen cases: take the codecs in turn, so that a short run
+			// still meets every one of them
+			"ocfd" => {
+				files += 1;
+				CODECS[files % CODECS.len()]
+			}
 			_ => *CODECS.choose(&mut rng).unwrap(),
 		};
 		let k = if big { rng.gen_range(1..3) } else { rng.gen_range(0..7) };
@@ -852,11 +859,23 @@ pub fn generate_r(stream: &str, seed: u64, n: usize, emit: &mut dyn FnMut(String
 					// the object count one less / one more than the block holds (still a well-formed
 					// varint): data left in the block after the declared objects, resp. an object
 					// missing - with every codec
-					let c = file[count_off];
-					if c & 0x80 == 0 && c >= 4 && c & 1 == 0 && c < 0x7e {
-						let mut f = file.clone();
-						f[count_off] = if rng.gen_bool(0.7) { c - 2 } else { c + 2 };
-						v.push(("flip".to_string(), f));
+					for &(count_off, _, data_off, data_end) in offs.iter().take(3) {
+						let c = file[count_off];
+						if c & 0x80 == 0 && c >= 4 && c & 1 == 0 && c < 0x7e {
+							let mut f = file.clone();
+							f[count_off] = if rng.gen_bool(0.7) { c - 2 } else { c + 2 };
+							v.push(("flip".to_string(), f));
+						}
+						// snappy: the trailing CRC-32 of the plain data, and the length the compressed
+						// stream announces for it
+						if codec == "snappy" && data_end >= data_off + 5 && rng.gen_bool(0.5) {
+							let mut f = file.clone();
+							f[data_end - 1 - rng.gen_range(0..4)] ^= 1 << rng.gen_range(0..8);
+							v.push(("flip".to_string(), f));
+							let mut f = file.clone();
+							f[data_off] ^= 1 << rng.gen_range(0..7);
+							v.push(("flip".to_string(), f));
+						}
 					}
 					let mut cuts = vec![count_off, size_off, data_off, data_end, data_end + 1, data_end + 15];
 					for o in size_off + 1..data_off {
